@@ -175,6 +175,24 @@ def rule_r1(chk, p, t):
     T1 = ast.BinOp(T, ast.Add(), DT)
     T2 = ast.BinOp(T1, ast.Add(), copy.deepcopy(DT))
     sk = StepSym(p, t, step, T, T1, ast.Name("CJD0", ast.Load()))
+    if not sk.cjd_assign():
+        # the carried lower bound is read by stepForward but advanced elsewhere (or nowhere)
+        writers = []
+        for fi in p.all_functions(include_nested=True):
+            for n in walk_no_nested(fi.node):
+                if isinstance(n, (ast.Assign, ast.AugAssign, ast.AnnAssign)):
+                    for tg in n.targets if isinstance(n, ast.Assign) else [n.target]:
+                        if isinstance(tg, ast.Attribute) and tg.attr == "current_julian_date" and fi.name != "__init__":
+                            writers.append(fi.qualname)
+        reads = [n for n in walk_no_nested(step.node) if isinstance(n, ast.Attribute) and n.attr == "current_julian_date" and isinstance(n.ctx, ast.Load)]
+        if reads:
+            r.violation(
+                step.qualname + ":lower-bound",
+                "lower-bound-not-advanced-per-step",
+                f"stepForward takes the lower bound of its event windows from `self.current_julian_date` but does not advance it itself (writers: {sorted(set(writers)) or 'none'}): whenever those are not run once per physics step - e.g. with an output step larger than the physics step - the windows of consecutive steps overlap and an event is delivered, and can fire, in several steps; the truth then depends on the output cadence",
+                step.loc(reads[0]),
+            )
+            return
     cjd_next = sk.cjd_post()
     sk1 = StepSym(p, t, step, T1, T2, cjd_next)
 
